@@ -24,12 +24,12 @@ def run(ctx):
     sc = _score.generate(ctx, True, only=fams)
     stride = max(1, len(sc) // (150 if ctx.quick else 1500))
     for fam, c in sc[::stride]:
-        c = dict(c, runs=c["runs"][-10:])
+        c = dict(c, runs=c["runs"][len(hc) % 3::max(1, len(c["runs"]) // 10)][:12])
         hc.append(_score.to_history(len(hc), fam, c, tags=(len(hc) % 2 == 0)))
     tg = C06.generate(ctx, True)
     stride = max(1, len(tg) // (150 if ctx.quick else 1500))
     for fam, c in tg[::stride]:
-        c = dict(c, runs=c["runs"][-10:])
+        c = dict(c, runs=c["runs"][len(hc) % 3::max(1, len(c["runs"]) // 10)][:12])
         hc.append(C06.to_history(len(hc), fam, c))
     a_cases, b_cases = [], []
     for h in hc:
